@@ -73,9 +73,9 @@ def run(rep, tier, seed, budget):
             spec.append("]")
         s = make_slots("c", spec) if spec else ""
         try:
-            items = list(sfu.split_selfies(s))
-            ln = sfu.len_selfies(s)
-            alpha = sfu.get_alphabet_from_selfies([s]) if with_alphabet else None
+            items = symstr.robust_call(lambda z: list(sfu.split_selfies(z)), s)
+            ln = symstr.robust_call(sfu.len_selfies, s)
+            alpha = symstr.robust_call(sfu.get_alphabet_from_selfies, [s]) if with_alphabet else None
         except Exception:  # noqa: a well-formed string must not make the utilities raise
             col.candidate({"prop": "C14", "kind": "tok_utils", "strings": [model_value(eng.current_model(), s)]})
             return
@@ -130,7 +130,7 @@ def run(rep, tier, seed, budget):
             strs.append(make_slots("c%d_" % j, spec) if spec else "")
         as_iter = bool(engine.fresh_bool("one_shot_iterator"))
         try:
-            alpha = sfu.get_alphabet_from_selfies(iter(strs) if as_iter else list(strs))
+            alpha = symstr.robust_call(lambda zs: sfu.get_alphabet_from_selfies(iter(zs) if as_iter else list(zs)), strs)
         except Exception:  # noqa: well-formed strings must not make the utility raise
             m = eng.current_model()
             col.candidate({"prop": "C14", "kind": "tok_utils", "strings": [model_value(m, x) for x in strs], "one_shot_iterator": as_iter})
